@@ -1,6 +1,7 @@
 package tokenizers
 
 import (
+	"github.com/pip-services3-gox/pip-services3-expressions-gox/io"
 	"github.com/pip-services3-gox/pip-services3-expressions-gox/tokenizers"
 	"github.com/pip-services3-gox/pip-services3-expressions-gox/tokenizers/generic"
 )
@@ -9,6 +10,7 @@ type MustacheTokenizer struct {
 	*tokenizers.AbstractTokenizer
 	special      bool
 	specialState tokenizers.ITokenizerState
+	reader       io.IScanner
 }
 
 func NewMustacheTokenizer() *MustacheTokenizer {
@@ -57,7 +59,9 @@ func (c *MustacheTokenizer) ReadNextToken() *tokenizers.Token {
 	}
 
 	// Check for initial state
-	if c.NextTokenValue == nil && c.LastTokenType == tokenizers.Unknown {
+	// Start in the text mode whenever a new reader was assigned
+	if c.reader != c.Scanner {
+		c.reader = c.Scanner
 		c.special = true
 	}
 
@@ -73,7 +77,7 @@ func (c *MustacheTokenizer) ReadNextToken() *tokenizers.Token {
 	c.special = false
 	token := c.AbstractTokenizer.ReadNextToken()
 	// Switch to quote when '{{' or '{{{' symbols found
-	if token != nil && (token.Value() == "}}" || token.Value() == "}}}") {
+	if token != nil && token.Type() == tokenizers.Symbol && (token.Value() == "}}" || token.Value() == "}}}") {
 		c.special = true
 	}
 	return token
